@@ -319,6 +319,20 @@ func (f *facts) flowTables(conn, tr *ast.File) string {
 					return neg + "alone"
 				}
 			}
+			// the deadline test of the yield branch: `!deadline.IsZero() && !time.Now().Before(deadline)`
+			if c, isC := e.(*ast.CallExpr); isC {
+				switch p := src(f.fset, c.Fun); {
+				case strings.HasSuffix(p, ".IsZero"):
+					return "!hasDeadline"
+				case strings.HasSuffix(p, ".Before") || strings.HasSuffix(p, ".After"):
+					if strings.Contains(src(f.fset, c), "time.Now()") {
+						if strings.HasSuffix(p, ".Before") {
+							return "!deadlinePassed" // time.Now().Before(deadline)
+						}
+						return "deadlinePassed"
+					}
+				}
+			}
 			return ""
 		}
 		effect := func(n ast.Node) string {
@@ -338,7 +352,7 @@ func (f *facts) flowTables(conn, tr *ast.File) string {
 			}
 			return ""
 		}
-		rows, unk := f.runScenarios(fd, []string{"peekFailed", "idMatches", "alone"}, classify, effect)
+		rows, unk := f.runScenariosFixed(fd, []string{"peekFailed", "idMatches", "alone", "deadlinePassed"}, map[string]bool{"hasDeadline": true}, nil, classify, effect)
 		emit("waitResponseFlow", rows, unk)
 	}
 
